@@ -108,7 +108,7 @@ def vec_prop(extra, quick, thorough, level="exploration"):
             "real_vs_stub": VEC_REAL_STUB, "assumptions": VEC_ASSUME, "batches": {"quick": quick, "thorough": thorough}}
 
 PROPS["C08"] = vec_prop("Profile biased to copies, moves, consuming expressions and follow-ups on moved-from vectors.",
-    [{"engine": "vecsim", "config": "asan", "runs": 60000, "deadline": 70}, {"engine": "vecsim", "config": "plain", "runs": 200000, "base": 60000, "deadline": 40}],
+    [{"engine": "vecsim", "config": "asan", "runs": 100000, "deadline": 120}, {"engine": "vecsim", "config": "plain", "runs": 200000, "base": 100000, "deadline": 60}],
     [{"engine": "vecsim", "config": "asan", "runs": 1500000, "deadline": 900}, {"engine": "vecsim", "config": "plain", "runs": 8000000, "base": 1500000, "deadline": 600}])
 PROPS["C09"] = vec_prop("The first 22680 run indices enumerate {=,+=,-=,construct} x 21 expression forms x 6 target kinds x 5 alias patterns x 9 operand category pairs "
                         "(dimension and flag set rotate with the index); later indices embed statements in random histories.",
@@ -117,7 +117,7 @@ PROPS["C09"] = vec_prop("The first 22680 run indices enumerate {=,+=,-=,construc
      {"engine": "vecsim", "config": "plain", "runs": 4000000, "base": 1500000, "deadline": 400}])
 PROPS["C14"] = vec_prop("The first run indices enumerate the bounded table of argument faults (20 ordered dimension pairs x 17 binary entry points (incl. rotation by a non-square matrix, weighted rotation by an operator of another dimension, evolution of an expression by a mismatched operator; expression entry points with every "
                         "lvalue/std::move operand combination) x 2 storage kinds, and the constructor/factory window with every index up to d*d+2); later indices place argument faults inside random histories (40% of operations).",
-    [{"engine": "vecsim", "config": "asan", "runs": 60000, "deadline": 80}],
+    [{"engine": "vecsim", "config": "asan", "runs": 120000, "deadline": 120}],
     [{"engine": "vecsim", "config": "asan", "runs": 1500000, "deadline": 1200}, {"engine": "vecsim", "config": "asan-avx", "runs": 300000, "deadline": 400}],
     level="fault_enumeration")
 PROPS["C15"] = vec_prop("Profile mixes everything, including throwing operations, queries through the GSL-backed matrix functions, bursts and cache clearing; verdict = "
@@ -126,7 +126,7 @@ PROPS["C15"] = vec_prop("Profile mixes everything, including throwing operations
     [{"engine": "vecsim", "config": "asan", "runs": 2000000, "deadline": 1000}, {"engine": "vecsim", "config": "asan-avx", "runs": 1000000, "deadline": 600}])
 PROPS["C16"] = vec_prop("Every history (2-12 operations) is first run fault free to count the allocations of each operation; then it is re-run once for every (operation, k) "
                         "with exactly that allocation throwing std::bad_alloc (evaluations counts these executions).",
-    [{"engine": "vecsim", "config": "asan", "runs": 12000, "deadline": 90}],
+    [{"engine": "vecsim", "config": "asan", "runs": 30000, "deadline": 120}],
     [{"engine": "vecsim", "config": "asan", "runs": 200000, "deadline": 1500}],
     level="fault_enumeration")
 
@@ -159,15 +159,15 @@ def sol_prop(extra, quick, thorough):
 
 PROPS["C04"] = sol_prop("Profile: 1-3 Evolve calls per run; every right-hand-side evaluation is compared with the dense documented equation at the stepper's (buffer, time) and "
                         "the final state with the closed form.",
-    [{"engine": "solversim", "config": "asan", "runs": 5000, "deadline": 90}],
+    [{"engine": "solversim", "config": "asan", "runs": 8000, "deadline": 150}],
     [{"engine": "solversim", "config": "asan", "runs": 100000, "deadline": 1500}, {"engine": "solversim", "config": "plain", "runs": 400000, "base": 100000, "deadline": 900}])
 PROPS["C05"] = sol_prop("Profile: histories of queries interleaved with Evolve, re-initialisation, moves and a second solver.",
-    [{"engine": "solversim", "config": "asan", "runs": 10000, "deadline": 90}],
+    [{"engine": "solversim", "config": "asan", "runs": 16000, "deadline": 150}],
     [{"engine": "solversim", "config": "asan", "runs": 300000, "deadline": 1500}, {"engine": "solversim", "config": "plain", "runs": 1000000, "base": 300000, "deadline": 600}])
 PROPS["C10"] = sol_prop("Profile: up to 8 segments over the full operation alphabet.",
-    [{"engine": "solversim", "config": "asan", "runs": 5000, "deadline": 90}],
+    [{"engine": "solversim", "config": "asan", "runs": 8000, "deadline": 150}],
     [{"engine": "solversim", "config": "asan", "runs": 100000, "deadline": 1500}, {"engine": "solversim", "config": "plain", "runs": 400000, "base": 100000, "deadline": 900}])
-PROPS["C15"]["batches"]["quick"].append({"engine": "solversim", "config": "asan", "runs": 1500, "deadline": 40, "prop": "C15"})
+PROPS["C15"]["batches"]["quick"].append({"engine": "solversim", "config": "asan", "runs": 3000, "deadline": 90, "prop": "C15"})
 PROPS["C15"]["batches"]["thorough"].append({"engine": "solversim", "config": "asan", "runs": 100000, "deadline": 900, "prop": "C15"})
 PROPS["C15"]["batches"]["thorough"].append({"engine": "vecsim", "config": "ubsan", "runs": 2000000, "base": 3000000, "deadline": 600})   # one batch under the full UBSan check set
 PROPS["C15"]["real_vs_stub"] = {"real": VEC_REAL_STUB["real"] + SOL_REAL_STUB["real"], "simulated": VEC_REAL_STUB["simulated"] + SOL_REAL_STUB["simulated"]}
@@ -188,7 +188,7 @@ PROPS["C07"] = {
                                    "the call history (seeded workload)"]},
     "assumptions": ["inputs whose exponential overflows are not generated", "reference exp(A): scaling-and-squaring Taylor series in __float128 (libgcc soft float), trusted",
                     "mu_2 is computed with gsl_eigen_herm on the Hermitian part (trusted)", "GSL error handler off"],
-    "batches": {"quick": [{"engine": "expsim", "config": "asan", "runs": 30000, "deadline": 90}],
+    "batches": {"quick": [{"engine": "expsim", "config": "asan", "runs": 50000, "deadline": 150}],
                 "thorough": [{"engine": "expsim", "config": "asan", "runs": 400000, "deadline": 1200}, {"engine": "expsim", "config": "plain", "runs": 2000000, "base": 400000, "deadline": 900}]},
 }
 
@@ -209,7 +209,7 @@ PROPS["C18"] = {
                                    "the shared solver's H0 callback (S5, a yield point)"]},
     "assumptions": ["races inside uninstrumented libgsl on its own globals (e.g. gsl_rng_env_setup) are not visible", "only sequentially consistent, serialised executions are explored",
                     "hand-over of a vector between threads is synchronised by the user (a mutex-protected channel), as any real program must"],
-    "batches": {"quick": [{"engine": "threadsim", "config": "tsan", "runs": 12000, "deadline": 70}, {"engine": "threadsim", "config": "asan", "runs": 6000, "deadline": 50}],
+    "batches": {"quick": [{"engine": "threadsim", "config": "tsan", "runs": 20000, "deadline": 120}, {"engine": "threadsim", "config": "asan", "runs": 10000, "deadline": 90}],
                 "thorough": [{"engine": "threadsim", "config": "tsan", "runs": 1000000, "deadline": 1200}, {"engine": "threadsim", "config": "asan", "runs": 300000, "deadline": 900},
                              {"engine": "threadsim", "config": "plain", "runs": 1000000, "base": 1000000, "deadline": 600}]},
 }
